@@ -76,8 +76,10 @@ PROPS = {
     ),
     "C05": dict(
         module="OrbitModel.Properties.C05",
-        theorems=["Orbit.C05.reload_sources_tied_to_go_text", "Orbit.C05.persistence_order_tied_to_go_text", "Orbit.C05.acknowledged_survive_any_crash", "Orbit.C05.cached_heads_cover_the_log"],
-        families=[("routes", 100, 3000, 14), ("kv", 40, 1000, 12), ("reload", 40, 1000, 12)],
+        theorems=["Orbit.C05.reload_sources_tied_to_go_text", "Orbit.C05.persistence_order_tied_to_go_text", "Orbit.C05.acknowledged_survive_any_crash", "Orbit.C05.cached_heads_cover_the_log",
+                  "Orbit.C05.replication_never_forgets_cached_heads", "Orbit.C05.on_fully_loaded_stores_the_cache_is_the_heads_of_the_log",
+                  "Orbit.C05.limited_load_then_replication_forgot_a_branch_before_the_fix"],
+        families=[("routes", 100, 3000, 14), ("kv", 40, 1000, 12), ("reload", 40, 1000, 12), ("limit", 40, 1000, 12)],
         corr_fields={"values", "heads", "idx", "len", "local", "remote", "load", "rev"},
         nontrivial=lambda lines: any(l.startswith("restarted ") for l in lines) and sum(1 for l in lines if l.startswith("entry ")) >= 2,
         rule="histories of writes and replications by every route with instance restarts (close everything, new instance on the same keystore and cache, Load(-1)) at PRNG-chosen moments; after every step the cached heads must cover the whole log (the crash-prefix invariant) and after every restart the identity must be the same and the recovered state must equal the pre-restart state; non-trivial = at least one restart with >= 2 entries",
@@ -167,7 +169,8 @@ PROPS = {
         module="OrbitModel.Properties.C12",
         theorems=["Orbit.C12.no_message_panics", "Orbit.C12.listener_survives_any_stream", "Orbit.C12.only_complete_admitted_heads_loaded",
                   "Orbit.C12.later_valid_messages_handled", "Orbit.C12.listener_loop_handles_every_message", "Orbit.C12.a_loop_that_left_on_error_would_drop_later_messages", "Orbit.C12.no_length_prefix_panics",
-                  "Orbit.C12.frame_guard_tied_to_go_text", "Orbit.C12.pinned_tree_panics"],
+                  "Orbit.C12.frame_guard_tied_to_go_text", "Orbit.C12.pinned_tree_panics",
+                  "Orbit.C12.null_batch_members_never_panic", "Orbit.C12.batch_accessor_tied_to_go_text", "Orbit.C12.null_batch_member_crashed_the_index_before_the_fix"],
         families=[("garbage", 120, 4000, 10), ("transport", 40, 1500, 6)],
         corr_fields={"values", "heads", "idx", "len", "loadq", "rev"},
         nontrivial=lambda lines: sum(1 for l in lines if l.startswith("op garbage") and "kind=valid" not in l) >= 2,
@@ -316,7 +319,7 @@ MANIFEST_TEXT = {
         note="Known finding K1 (listed, exhibited by the corpus on every run): a request racing with a still-unwinding pre-cancelled request can complete without the shared hash; the next request brings it. Goroutine steps are modelled as atomic under the replicator mutex; timeouts are cancellations at a point.",
         technique="Lean 4 proof (inductive invariant over all schedules, potential-function termination) with hook/gate-driven differential harness"),
     "C12": dict(
-        text="Kernel-checked theorems from the decode result onward: no decoded message (any mix of null, empty, partial heads) makes Sync panic, only complete heads are loaded, the outcome for a message does not depend on what preceded it; no 64-bit length prefix makes the frame reader panic and accepted lengths are within the limit, with the guard regenerated from the Go text on every run. The pinned tree is refuted by decide-checked witnesses replayed on the real code before the two fix: commits. The harness delivers structurally enumerated malformed messages on the topic and the direct channel and raw frames to the real stream handler; a panic kills the harness process and is attributed to the running scenario.",
+        text="Kernel-checked theorems from the decode result onward: no decoded message (any mix of null, empty, partial heads) makes Sync panic, only complete heads are loaded, the outcome for a message does not depend on what preceded it; no 64-bit length prefix makes the frame reader panic and accepted lengths are within the limit, with the guard regenerated from the Go text on every run. A PUTALL batch with `null` members (a validly signed entry any writer can publish) is indexed as the batch of its real members and never dereferenced (finding F25, fix: commit; accessor tied to the Go text). The pinned tree is refuted by decide-checked witnesses replayed on the real code before the fix: commits. The harness delivers structurally enumerated malformed messages on the topic and the direct channel and raw frames to the real stream handler; a panic kills the harness process and is attributed to the running scenario.",
         note="The bytes -> structure step of encoding/json / CBOR is observed, not modelled (partial there); trusted: Lean kernel + standard axioms, the extractor, the hand-written decode model validated by the garbage family.",
         technique="Lean 4 proof (total outcome functions with explicit panic; BitVec frame guard tied by translator) with crash-attributing differential harness"),
     "C20": dict(
@@ -332,7 +335,7 @@ MANIFEST_TEXT = {
         note="Trusted: Lean kernel + standard axioms; content addressing (HashDet); the mapping from wire-form mutations to the model's flags is measured by the harness with the real Verify / re-encode.",
         technique="Lean 4 proof (Join adds only acceptable entries; monotonicity) with differential correspondence on tampered entries"),
     "C05": dict(
-        text="Kernel-checked theorem over explicit persistence-effect traces: for every valid history and EVERY prefix of its effect trace (every crash point), recovery returns every acknowledged write and every entry reported as replicated, only entries whose block was written, an ancestry-closed set, listed exactly as the pre-crash listing restricted to it; mechanism: the cached heads cover the log at every reachable store state. The harness restarts real instances over the same keystore and cache at random moments, compares the recovered state and identity, and evaluates 'cached heads cover the log' after every step of every scenario (the invariant from which every crash point follows).",
+        text="Kernel-checked theorem over explicit persistence-effect traces: for every valid history and EVERY prefix of its effect trace (every crash point), recovery returns every acknowledged write and every entry reported as replicated, only entries whose block was written, an ancestry-closed set, listed exactly as the pre-crash listing restricted to it; mechanism: the cached heads cover the log at every reachable store state. The harness restarts real instances over the same keystore and cache at random moments, compares the recovered state and identity, and evaluates 'cached heads cover the log' after every step of every scenario (the invariant from which every crash point follows). A replication round never forgets a cached head the log does not hold (proved for every store state and every batch: a store opened with Load(n) holds only part of what its cache points to); before the fix: commit F26 it did (decide-checked witness, replayed on the real store), and the limit family now lets partially loaded stores replicate and write before the final unlimited load, which must bring back everything ever listed or acknowledged.",
         note="Partial where the truth is in the runtime: durability/atomicity of each datastore call is the property's own assumption; leveldb is replaced by in-memory datastores; crash points are covered by the theorem plus the per-step invariant check rather than by killing processes.",
         technique="Lean 4 proof (effect-trace prefixes, durable-log invariant) with differential correspondence including restarts"),
     "C02": dict(
